@@ -360,6 +360,12 @@ def small_shapes(slice_i=0, n_slices=1, wrappers=True):
                 xs.append({"k": "AtMost", "v": v, "id": xid, "c": ch})
             xs.append({"k": "All", "id": xid, "c": ch})
             xs.append({"k": "Any", "id": xid, "c": ch})
+    yield from _wrapped(xs, slice_i, n_slices, wrappers)
+
+
+def _wrapped(xs, slice_i=0, n_slices=1, wrappers=True):
+    a = {"k": "leaf", "id": "a", "b": [0, 1]}
+    b = {"k": "leaf", "id": "b", "b": [0, 1]}
     i = 0
     for x in xs:
         forms = [x]
@@ -382,6 +388,22 @@ def small_shapes(slice_i=0, n_slices=1, wrappers=True):
             if i % n_slices == slice_i:
                 yield f
             i += 1
+
+
+def empty_shapes(slice_i=0, n_slices=1):
+    """compound nodes WITHOUT sub-propositions (an empty group: All(), Any(variable='E'), AtLeast(v, []) - what a data driven
+    caller gets from an empty rule list; the empty sum is 0, so All() holds and Any() does not), every value/sign, explicit or
+    generated id, alone and inside every connective"""
+    xs = []
+    for xid in ("X", None):
+        for v in (-1, 0, 1):
+            for s in (1, -1, None):
+                xs.append({"k": "AtLeast", "v": v, "s": s, "id": xid, "c": []})
+        for v in (-1, 0, 1):
+            xs.append({"k": "AtMost", "v": v, "id": xid, "c": []})
+        for k in ("All", "Any", "Xor", "XNor"):
+            xs.append({"k": k, "id": xid, "c": []})
+    yield from _wrapped(xs, slice_i, n_slices, True)
 
 
 def with_fixed_leaf(spec, leaf_id, value):
